@@ -270,5 +270,33 @@ def rule_penalty(ctx):
     return res.finish(10)
 
 
+def rule_ratio(ctx):
+    """'predictions in the link's range', 'probabilities lie in [0,1] even for extreme inputs': a quotient with an
+    exponential of the same unbounded argument above and below the line is inf/inf = NaN once exp overflows."""
+    res = RuleResult("R-C12-ratio", "no quotient has an unshifted, unguarded exp of the score both in numerator and denominator (sigmoid / inverse links stay finite for extreme scores)")
+    F = ctx.facts()
+    n = 0
+    scope = lambda fn: fn["d"]["krate"] == "linfa_logistic" or (fn["d"]["krate"] == "linfa_linear" and "/glm/" in fn_file(fn)) or (fn["d"]["krate"] == "linfa" and fn_file(fn).endswith("platt_scaling.rs"))
+    checked = 0
+    for fn in F.all_fns():
+        if not scope(fn):
+            continue
+        checked += 1
+        for node, ok, why in lse.exp_ratio_sites(fn):
+            n += 1
+            inst = "%s : quotient of exponentials #%d (%s)" % (fn_key(fn), n, why)
+            res.instance(inst)
+            if ok:
+                res.ok()
+            else:
+                res.violate("%s : exp-over-exp" % fn_key(fn), "`%s` divides an exponential of the score by an expression containing the same exponential, with no sign test and no shift: for scores beyond the overflow threshold of exp the quotient is inf/inf = NaN instead of saturating" % Render(fn["crate"]).e(node)[:80], fn_loc(fn, node["ln"]))
+    res.instance("scope: %d function bodies of linfa-logistic, the GLM and Platt scaling scanned for exp/exp quotients" % checked)
+    if checked >= 40:
+        res.ok()
+    else:
+        res.violate("scope-too-small", "only %d function bodies in scope (expected at least 40): the rule would pass vacuously" % checked, "")
+    return res.finish(1)
+
+
 def rules(tier):
-    return [rule_validate, rule_lse, rule_same, rule_dispatch, rule_penalty]
+    return [rule_validate, rule_lse, rule_same, rule_dispatch, rule_penalty, rule_ratio]
